@@ -13,7 +13,8 @@ LEVEL_TEXT = ("Proof: Coq theorems (for all glyph-name sets, glyphOrder lists an
               "is also evaluated directly on the implementation's observation. makeOfficialGlyphOrder and makeUnicodeToGlyphNameMapping are, "
               "in addition, TRANSLATED from /repo's util.py on every run (harness/imp_from_source.py: an imperative fragment -- sets, lists, "
               "dicts, nested for, continue, raise -- into state-passing Gallina, fail-closed) and the translation is PROVED equal to the hand "
-              "model, so the order / exactly-once / duplicate / sound-and-complete theorems are restated about the code as it reads now.")
+              "model, so the order / exactly-once / duplicate / sound-and-complete theorems are restated about the code as it reads now."
+              " The variation-sequence loop of setupTable_cmap is TRANSLATED from /repo's source on every run (harness/imp_from_source.py -> Generated/Imp.v) and proved equal to the model when no selector repeats (Order/UvsTied.v): sound / complete / no empty selector are restated about the translated code.")
 LEVEL_NOTE = ("Trusted: Coq kernel, hand-written model (validated by correspondence only on generated cases), AST constant reader, "
               "Python harness, fontTools cmap (de)compilation. UVS and maxp.numGlyphs are checked on the implementation only.")
 TECHNIQUE = "Coq proof (model |= spec, for all inputs; two functions translated from source on every run and proved equal to the model) + vm_compute correspondence of model and spec against ufo2ft on generated fonts"
